@@ -738,4 +738,46 @@ example : (exImages (.int 1)).parts.all conformsB = true ∧ isOk (exImages (.in
 /-- … and one image field corrupted (`size = 0`): a part violates the catalogue (hypothesis of `C06_enforced_images`), dump refused -/
 example : (exImages (.int 0)).parts.all conformsB = false ∧ isOk (exImages (.int 0)).dumps = false := by decide +kernel
 
+/-! ### the domain hypothesis of `C06_errclass_composeinfo/_treeinfo` and the hypotheses of `C06_converse_treeinfo` -/
+
+def stepsInDomainB (steps : List Step) : Bool := steps.all fun s => match s with | .validate p => p.InDomain | .check _ => true
+
+theorem stepsInDomain_of_B {steps : List Step} (h : stepsInDomainB steps = true) : StepsInDomain steps := by
+  intro p hp
+  exact List.all_eq_true.mp h _ hp
+
+def exRelease : Obj := [(c!"name", .str c!"F"), (c!"short", .str c!"F"), (c!"version", .str c!"1"), (c!"type", .str c!"ga"),
+  (c!"is_layered", .bool false), (c!"internal", .bool false)]
+def exVar (id uid : PyVal) (arches : List PyVal) : Obj :=
+  [(c!"id", id), (c!"uid", uid), (c!"name", .str c!"n"), (c!"type", .str c!"variant"), (c!"arches", .list arches)]
+/-- `Server` with a child `optional`; the parent's uid and the child's arches are the parameters -/
+def exCI (puid : PyVal) (karch : PyVal) : ComposeInfoM :=
+  ⟨[], exCompose, exRelease, [],
+   [.mk c!"Server" (exVar (.str c!"Server") puid [.str c!"x86_64"]) []
+      [.mk c!"optional" (exVar (.str c!"optional") (.str c!"Server-optional") [karch]) [] []]]⟩
+
+/-- a two-level compose in the domain that is written; with a foreign child arch it is in the domain and refused with ValueError;
+with a LIST as the parent's uid the child's alignment cannot be computed: outside the domain (`Err.other`) -/
+example : stepsInDomainB (exCI (.str c!"Server") (.str c!"x86_64")).steps = true ∧ isOk (exCI (.str c!"Server") (.str c!"x86_64")).dumps = true
+    ∧ stepsInDomainB (exCI (.str c!"Server") (.str c!"sparc")).steps = true
+    ∧ (match (exCI (.str c!"Server") (.str c!"sparc")).dumps with | .error .valueError => true | _ => false) = true
+    ∧ stepsInDomainB (exCI (.list []) (.str c!"x86_64")).steps = false := by decide +kernel
+
+def exTI (variants : List TIVar) (media : Obj) : TreeInfoM :=
+  ⟨[(c!"version", .str c!"1.2")], [(c!"name", .str c!"F"), (c!"short", .str c!"F"), (c!"version", .str c!"1"), (c!"is_layered", .bool false)], [],
+   [(c!"arch", .str c!"x86_64"), (c!"build_timestamp", .int 1), (c!"platforms", .list [.str c!"x86_64"])], variants,
+   [(c!"checksums", .dict [])], [(c!"images", .dict [(c!"x86_64", .dict [(c!"kernel", .str c!"images/kernel")])])],
+   [(c!"mainimage", .none), (c!"instimage", .none)], media⟩
+def exTIVar : TIVar := .mk c!"S" [(c!"id", .str c!"S"), (c!"uid", .str c!"S"), (c!"name", .str c!"S"), (c!"type", .str c!"variant")] []
+def noMedia : Obj := [(c!"discnum", .none), (c!"totaldiscs", .none)]
+
+/-- a tree meeting every hypothesis of `C06_converse_treeinfo` (written), and the three writer-side failure sources, each with all
+parts conforming: no variant (IndexError, F12), `[media]` with one number (`int(None)`, TypeError) -/
+example : (exTI [exTIVar] noMedia).parts.all conformsB = true ∧ isOk (exTI [exTIVar] noMedia).dumps = true
+    ∧ stepsInDomainB (exTI [exTIVar] noMedia).steps = true
+    ∧ (exTI [] noMedia).parts.all conformsB = true ∧ (match (exTI [] noMedia).dumps with | .error .indexError => true | _ => false) = true
+    ∧ (exTI [exTIVar] [(c!"discnum", .int 1), (c!"totaldiscs", .none)]).parts.all conformsB = true
+    ∧ (match (exTI [exTIVar] [(c!"discnum", .int 1), (c!"totaldiscs", .none)]).dumps with | .error .typeError => true | _ => false) = true := by
+  decide +kernel
+
 end PM
